@@ -51,10 +51,13 @@ class Program:
         self.impl_cache = {}
         self.src_cache = {}
         self.crates = crates
+        self.allocs = {}          # (crate, 'allocN') -> static item name
         for c in crates:
             text = open(os.path.join(mir_dir, c + '.mir')).read()
             for f in parse.parse_mir(text, c):
                 self.add_fn(f)
+            for m in re.finditer(r'^(alloc\d+) \(static: ([^,]+),', text, re.M):
+                self.allocs[(c, m.group(1))] = m.group(2).strip()
         for c in crates:
             self.load_enums(os.path.join(C.REPO, c, 'src'))
         for e, m in self.enums.items():
@@ -192,6 +195,14 @@ class Program:
         for f in cands:
             if f.impl_loc:
                 st, tr, line = self.impl_info(f.impl_loc)
+                if st is not None and st.startswith('$'):
+                    st = None              # macro metavariable: the impl comes from a macro of another crate
+                if st is None and self_ty and f.mod_path and not f.impl_loc[0].startswith(tuple(self.crates)):
+                    # impl generated by an external macro (bitflags!, lazy_static!): the type is declared in the module
+                    # the function is printed under
+                    src = '\n'.join(self.src_lines(os.path.join(f.crate, 'src', *f.mod_path) + '.rs'))
+                    if re.search(r'\bstruct\s+%s\s*:\s*\w+\s*\{' % re.escape(self_ty), src):
+                        st = self_ty
                 if self_ty is None or st is None or st != self_ty:
                     continue
                 derived = not line.startswith('impl')
@@ -201,8 +212,10 @@ class Program:
                     continue
                 out.append(f)
             else:
-                # free function (possibly module qualified)
+                # free function (possibly module qualified), or a trait's default method body
                 if c.startswith('<'):
+                    if trait is not None and f.mod_path and f.mod_path[-1] == trait:
+                        out.append(f)
                     continue
                 if self_ty and self_ty[:1].isupper() and self_ty not in self.crates:
                     continue          # Type::name never names a free function
@@ -227,6 +240,10 @@ class Program:
                     out = flt
         if len(out) > 1 and caller is not None:
             flt = [f for f in out if f.file == caller.file]
+            if not flt and caller.file:
+                # same source directory (e.g. deserializer/error.rs for a caller in deserializer/state.rs)
+                d = os.path.dirname(caller.file)
+                flt = [f for f in out if (f.file or (f.impl_loc[0] if f.impl_loc else '')) and os.path.dirname(f.file or f.impl_loc[0]) == d]
             if flt:
                 out = flt
             else:
@@ -239,6 +256,8 @@ class Program:
                 flt = [f for f in out if not f.impl_loc or self.impl_info(f.impl_loc)[1] is None]
                 if flt:
                     out = flt
+        if len(out) > 1 and len({(f.crate, f.name) for f in out}) == 1:
+            out = out[:1]
         if len(out) == 1:
             return out[0]
         if len(out) > 1:
